@@ -1005,12 +1005,8 @@ def known_region(site, rsp):
         return prod in ('const', 'array')
     if site in ('NuclearNorm(1,inf)', 'IndicatorNuclearNormUnitBall(inf,1)'):
         return True
-    if site in ('NuclearNorm(1,2)', 'IndicatorNuclearNormUnitBall(inf,2)'):
-        return matrix_wide(rsp)
     if site in ('Huber', 'f_huber'):
-        return rsp.parts is not None or rsp.has_array_weighting()
-    if site == 'ZeroFunctional*neg':
-        return True
+        return rsp.parts is not None
     return False
 
 
@@ -1127,7 +1123,12 @@ def is_linear_tree(fd):
         return float(fd['s']) == 0.0 or is_linear_tree(fd['f'])
     if t == 'argscale':
         if not isinstance(fd['s'], dict) and float(fd['s']) == 0.0:
-            return True      # ConstantFunctional(f(0)) with f(0) = 0
+            # ConstantFunctional(f(0)); generated for f(0) = 0 except on
+            # ConstantFunctional(c) itself
+            ch = fd['f']
+            if ch['t'] == 'leaf' and ch['name'] == 'ConstantFunctional':
+                return ch['params']['c'] == 0
+            return True
         return is_linear_tree(fd['f'])
     if t == 'addconst':
         return fd['c'] == 0 and is_linear_tree(fd['f'])
@@ -1204,7 +1205,8 @@ def expected_rejection(fd):
     if t == 'conj' and mode_of(fd) == 'functional' and \
             conj_unavailable(fd['f']):
         return 'nie'
-    if t == 'leftscale' and fd['s'] < 0:
+    if t == 'leftscale' and fd['s'] < 0 and not is_linear_tree(fd['f']):
+        # (a linear functional stays convex under any real factor)
         return 'value'
     if t == 'quadpert' and fd['a'] < 0:
         return 'value'
